@@ -11,6 +11,7 @@ from __future__ import annotations
 import numpy as np
 
 from .. import exprcase as X
+from .. import harness as H
 from ..harness import close
 from ..monitors.coverage import closure_sites
 from ..recipes import ast as A
@@ -30,7 +31,8 @@ def info(tier):
         "grammar, depth<=4, seeded) evaluated at 3 regular points (margin>=1e-2, |.|<=1e6) through 6 routes; every second directed and every sixth random recipe "
         "also as a DAG (the recipe occurring 2-4 times as ONE shared object inside t*t+t, sin(t)/(t*t+1.5), ...); a case is "
         "non-trivial if it has >=2 operator nodes; distinct = distinct canonical recipe+V hashes",
-        "required_cells": X.required_cells() + [c for c, _, _ in same_name_batches()] + ["shared-subexpressions|" + v for v in X.VRELS],
+        "required_cells": X.required_cells() + [c for c, _, _ in same_name_batches()] + ["shared-subexpressions|" + v for v in X.VRELS]
+        + [f"special:{k}|{v}" for k in ("tiny", "near-one", "near-integer-exponent", "near-integer-vpow", "near-zero") for v in ("exact", "superset_permuted")],
         "assumptions": [
             "NumPy ufuncs are the arithmetic substrate of both optyx and the reference",
             "points are regular (distance to every singular set >= 1e-2); irregular points are excluded, not judged",
@@ -54,6 +56,7 @@ def run_case(case, rec, lowered=True):
     fam, vrel = case["family"], case["vrel"]
     cell = f"{fam}|{vrel}"
     B.SHARE[0] = bool(case.get("share"))
+    H.SCALE_INV[0] = float(case.get("inv_scale", 1.0))
     rec.case({"d": decls, "n": node, "V": V, "s": B.SHARE[0]}, nontrivial=A.n_ops(node) >= 2)
     if B.SHARE[0]:
         cell = "shared-subexpressions|" + vrel
@@ -150,18 +153,68 @@ def run_case(case, rec, lowered=True):
             pt, got, want = worst[name][1]
             bad(name, "mismatch", pt, got, want)
 
+    # the caller's point buffer reused: one ndarray (and one dict) updated in place between the calls
+    if len(case["points"]) >= 2 and not nbad:
+        buf = B.point_array(V, case["points"][0]).copy()
+        dbuf = dict(case["points"][0])
+        seq = {"compile": routes["compile"], "CompiledExpression": routes["CompiledExpression"]}
+        if it_fn is not None:
+            seq["compile-iterative"] = it_fn
+        for pt in list(case["points"]) + [case["points"][0]]:
+            buf[:] = B.point_array(V, pt)
+            dbuf.update(pt)
+            want, t = R.ref_value(D, node, pt)
+            for name, fn in list(seq.items()) + [("dict", None)]:
+                try:
+                    got = _scalar(routes["dict"](dbuf)) if name == "dict" else _scalar(fn(buf))
+                except Exception as ex:
+                    bad(name + "-same-buffer", "raises:" + type(ex).__name__, pt, ex=ex)
+                    continue
+                rec.cmp(1, cell)
+                rec.events["same-buffer-comparisons"] += 1
+                if not close(got, want, RTOL, t.mag)[0]:
+                    bad(name, "stale-or-wrong-after-in-place-update-of-the-point-buffer", pt, got, want)
+                    seq.pop(name, None)
+
+    # the point in other legal representations (integer-typed arrays, a list of ints)
+    forms = X.other_point_forms(case, margin=1e-2) if not nbad else None
+    if forms is not None:
+        pt, reps = forms
+        want, t = R.ref_value(D, node, pt)
+        if np.isfinite(want) and t.regular():
+            for label, xrep in reps:
+                for name in ("compile", "CompiledExpression"):
+                    try:
+                        with np.errstate(all="ignore"):
+                            got = _scalar(routes[name](xrep))
+                    except Exception as ex:  # NumPy's own integer-arithmetic refusals: not a result, not judged
+                        rec.events[f"point-form-refused:{label}:{type(ex).__name__}"] += 1
+                        continue
+                    rec.cmp(1, cell)
+                    rec.events["point-form-comparisons:" + label] += 1
+                    if not close(got, want, RTOL, t.mag)[0]:
+                        bad(name, "result-depends-on-the-dtype-of-the-point:" + label, pt, got, want)
+
     # parameters: callables compiled before the update must see the new value
     pnames = sorted({x[1] for x in A.walk(node) if x[0] == "par"} | {f"{x[1]}[{x[2]}]" for x in A.walk(node) if x[0] == "pel"})
     if pnames:
         pt = case["points"][0]
         newvals = {}
+        xb = B.point_array(V, pt)
+        for fn_ in (routes["compile"], routes["CompiledExpression"], it_fn):
+            # the last call before the update is at the very point (and array object) of the first call after it
+            if fn_ is not None:
+                try:
+                    fn_(xb)
+                except Exception:
+                    pass
         for i, pn in enumerate(pnames):
             nv = [0.75, -1.25, 2.25, 0.5][i % 4]
             b.params[pn].set(nv)
             newvals[pn] = nv
         want, t = R.ref_value(D, node, pt, params=newvals)
         if np.isfinite(want) and t.regular():
-            x = B.point_array(V, pt)
+            x = xb
             after = {"evaluate": lambda: e.evaluate(dict(pt)), "compile": lambda: routes["compile"](x),
                      "CompiledExpression": lambda: routes["CompiledExpression"](x), "dict": lambda: routes["dict"](dict(pt))}
             if it_fn is not None:
@@ -255,6 +308,9 @@ def run(ctx, rec):
             sc = X.shared_case(rng, case, form=(k // 2) % len(X.DAG_FORMS))
             if sc is not None:
                 run_case(sc, rec)
+    for case in X.special_cases(rng, ctx.mine, n_points=3):
+        run_case(case, rec)
+    H.SCALE_INV[0] = 1.0
     for i, (cell, views, mk) in enumerate(same_name_batches()):
         if ctx.mine(i):
             vs = list(views)
